@@ -504,7 +504,7 @@ func c13RunCase(line string, root string, idx int, templates string) (res string
 	os.MkdirAll(filepath.Join(templates, "frr"), 0755)
 	os.WriteFile(filepath.Join(templates, "frr", "none.tmpl"), []byte("{{define \"none\"}}{{end}}"), 0644)
 	os.WriteFile(filepath.Join(templates, "frr.conf.tmpl"), []byte(
-		"{{with .Protocols.BGP}}bgp {{.ASN}} {{printf \"%q\" .RouterID}}{{range $k, $v := .Neighbors}} n:{{$k}}:{{printf \"%q %q %d %v\" $v.Description $v.Peer $v.RemoteAS $v.BFD}}{{end}}\n{{end}}{{with .Protocols.OSPF}}ospf {{printf \"%+v\" .}}\n{{end}}"+
+		"{{with .Protocols.BGP}}bgp {{.ASN}} {{printf \"%q\" .RouterID}}{{range $k, $v := .Neighbors}} n:{{$k}}:{{printf \"%q %q %d %v\" $v.Description $v.Peer $v.RemoteAS $v.BFD}}{{end}}{{with .IPv4Unicast}} v4{{range $k, $v := .Networks}} net:{{$k}}:{{printf \"%q\" $v.RoutePolicy}}{{end}}{{end}}\n{{end}}{{with .Protocols.OSPF}}ospf {{printf \"%+v\" .}}\n{{end}}"+
 			"{{with .Protocols.OSPF6}}ospf6 {{printf \"%+v\" .}}\n{{end}}{{with .Protocols.ISIS}}isis {{printf \"%+v\" .}}\n{{end}}"+
 			"{{with .Protocols.Static}}static {{printf \"%+v\" .}}\n{{end}}{{with .Protocols.MPLS}}mpls {{printf \"%+v\" .}}\n{{end}}"+
 			"{{with .Protocols.LDP}}ldp {{printf \"%+v\" .}}\n{{end}}"), 0644)
@@ -971,7 +971,7 @@ func TestVerifC13(t *testing.T) {
 		select {
 		case r := <-done:
 			fmt.Fprintln(w, r)
-		case <-time.After(60 * time.Second):
+		case <-time.After(180 * time.Second):
 			fmt.Fprintln(w, "hang")
 		}
 	}
